@@ -99,6 +99,10 @@ type Sim struct {
 	BubbleStart time.Time // time.Now() inside the bubble when the process started
 	Skew        time.Duration
 	Zone        *time.Location
+	// BeforeFirstWrite, when set, runs once: right before the first file-system call by which the process starts
+	// to write (WriteFile, OpenFile for writing, Create, CreateTemp, Rename) - the window between a command's
+	// read of its target and its write, in which somebody else may have saved the file.
+	BeforeFirstWrite func()
 
 	// choices
 	Tape     *Tape // scheduler picks
@@ -822,6 +826,7 @@ func FSWriteFile(name string, data []byte, perm os.FileMode) error {
 		return os.WriteFile(name, data, perm)
 	}
 	g := s.seam("write " + s.rel(name))
+	s.firstWriteHook()
 	s.mu.Lock()
 	s.writeCalls++
 	fault := ""
@@ -885,6 +890,7 @@ func FSCreate(name string) (*os.File, error) {
 		return os.Create(name)
 	}
 	g := s.seam("create " + s.rel(name))
+	s.firstWriteHook()
 	f, err := os.Create(name)
 	s.logEvent(g, "create "+s.rel(name)+" -> "+errClass(err))
 	return f, err
@@ -974,6 +980,9 @@ func FSOpenFile(name string, flag int, perm os.FileMode) (*os.File, error) {
 	}
 	g := s.seam("openfile " + s.rel(name))
 	writing := flag&(os.O_WRONLY|os.O_RDWR|os.O_CREATE|os.O_TRUNC|os.O_APPEND) != 0
+	if writing {
+		s.firstWriteHook()
+	}
 	if writing && s.metaFail() {
 		s.logEvent(g, "openfile "+s.rel(name)+" -> injected EIO")
 		return nil, eio("open", name)
@@ -1002,6 +1011,7 @@ func FSCreateTemp(dir, pattern string) (*os.File, error) {
 		return os.CreateTemp(dir, pattern)
 	}
 	g := s.seam("createtemp " + s.rel(dir) + " " + pattern)
+	s.firstWriteHook()
 	if s.metaFail() {
 		s.logEvent(g, "createtemp "+s.rel(dir)+" -> injected EIO")
 		return nil, eio("open", dir)
@@ -1033,6 +1043,7 @@ func FSRename(oldpath, newpath string) error {
 		return os.Rename(oldpath, newpath)
 	}
 	g := s.seam("rename " + s.rel(oldpath) + " " + s.rel(newpath))
+	s.firstWriteHook()
 	if s.metaFail() {
 		s.logEvent(g, "rename "+s.rel(oldpath)+" "+s.rel(newpath)+" -> injected EIO")
 		return eio("rename", oldpath)
@@ -1141,6 +1152,31 @@ func fileMeta(f *os.File, what string, do func() error) error {
 	s.logEvent(g, what+" "+s.rel(name)+" -> "+errClass(err))
 	return err
 }
+
+func (s *Sim) firstWriteHook() {
+	s.mu.Lock()
+	h := s.BeforeFirstWrite
+	s.BeforeFirstWrite = nil
+	if h != nil {
+		s.Fired["edit_between_read_and_write"]++
+	}
+	s.mu.Unlock()
+	if h != nil {
+		h()
+	}
+}
+
+// FileShim is what a *os.File becomes when klog hands it to code that writes through an interface (R7b).
+type FileShim struct{ F *os.File }
+
+// FileAsWriter wraps a file that is passed on as an io.Writer (bufio.NewWriter(f), io.WriteString(f, ...), ...).
+func FileAsWriter(f *os.File) *FileShim { return &FileShim{F: f} }
+
+func (w *FileShim) Write(b []byte) (int, error)       { return fileWrite(w.F, b) }
+func (w *FileShim) WriteString(s string) (int, error) { return fileWrite(w.F, []byte(s)) }
+func (w *FileShim) Read(b []byte) (int, error)        { return w.F.Read(b) }
+func (w *FileShim) Close() error                      { return FileClose(w.F) }
+func (w *FileShim) Sync() error                       { return FileSync(w.F) }
 
 // FileSync replaces (*os.File).Sync.
 func FileSync(f *os.File) error { return fileMeta(f, "sync", f.Sync) }
